@@ -194,7 +194,14 @@ fn gen_poling(r: &mut Rng) -> PeriodicPoling {
 fn case(ctx: &mut Ctx, spdc0: &SPDC, cs: &CrystalSetup, lp: f64, ls: f64, ths: f64, phs: f64, pp: &PeriodicPoling, stmt: bool) {
   let pm = cs.pm_type;
   let waist = ctx.rng.log_range(20e-6, 2e-3);
-  let (signal, pump) = mk_beams(pm, lp, ls, ths, phs, waist);
+  let (mut signal, mut pump) = mk_beams(pm, lp, ls, ths, phs, waist);
+  // hand-built beams whose polarizations need not agree with the phase-matching label
+  if ctx.rng.below(4) == 0 {
+    let pols = [PolarizationType::Ordinary, PolarizationType::Extraordinary];
+    signal.set_polarization(*ctx.rng.pick(&pols));
+    pump.set_polarization(*ctx.rng.pick(&pols));
+    ctx.count("idler/beam-polarizations/independent-of-pm-type");
+  }
   let lsr = l_of(&signal);
   let lpr = l_of(&pump);
   let ns = *signal.refractive_index(signal.frequency(), cs);
@@ -292,7 +299,9 @@ fn case(ctx: &mut Ctx, spdc0: &SPDC, cs: &CrystalSetup, lp: f64, ls: f64, ths: f
     return;
   }
   // ================= S: the statement on the real code =================
-  let (pol_p, pol_s, pol_i) = pol_of(pm);
+  // every wave vector with the beam's OWN polarization; the PM table only says what the idler's must be
+  let (_, _, pol_i) = pol_of(pm);
+  let (pol_p, pol_s) = (pump.polarization(), signal.polarization());
   let ws = w_of(&signal);
   let wi = w_of(&idler);
   let wp = w_of(&pump);
@@ -303,7 +312,7 @@ fn case(ctx: &mut Ctx, spdc0: &SPDC, cs: &CrystalSetup, lp: f64, ls: f64, ths: f
   let zhat = Vector3::new(0., 0., 1.);
   let kp = indep_k(cs, 0., 0., pol_p, wp);
   let ks = indep_k(cs, th_of(&signal), ph_of(&signal), pol_s, ws);
-  let ki = indep_k(cs, th_of(&idler), ph_of(&idler), pol_i, wi);
+  let ki = indep_k(cs, th_of(&idler), ph_of(&idler), idler.polarization(), wi);
   let scale = kp.norm();
 
   // (1) Δk = kp − ks − ki − kΛ ẑ
@@ -484,7 +493,8 @@ fn check_spdc(ctx: &mut Ctx, spdc: &SPDC, route: &str, hist: &str) {
   // K: the idler held by the object is the model's optimum idler for the object's signal/pump/crystal/poling
   k_opt_idler(ctx, cs, signal, pump, pp, &idler_wire(idler));
 
-  let (pol_p, pol_s, pol_i) = pol_of(pm);
+  let (_, _, pol_i) = pol_of(pm);
+  let (pol_p, pol_s) = (pump.polarization(), signal.polarization());
   let (ws, wi, wp) = (w_of(signal), w_of(idler), w_of(pump));
   let k_lambda = match pp {
     PeriodicPoling::Off => 0.0,
@@ -493,7 +503,7 @@ fn check_spdc(ctx: &mut Ctx, spdc: &SPDC, route: &str, hist: &str) {
   let zhat = Vector3::new(0., 0., 1.);
   let kp = indep_k(cs, 0., 0., pol_p, wp);
   let ks = indep_k(cs, th_of(signal), ph_of(signal), pol_s, ws);
-  let ki = indep_k(cs, th_of(idler), ph_of(idler), pol_i, wi);
+  let ki = indep_k(cs, th_of(idler), ph_of(idler), idler.polarization(), wi);
   let scale = kp.norm();
   // Δk reported by the object = kp − ks − ki − kΛ ẑ with every k from index_along and the PM table's polarizations
   let dk = raw_vec(spdc.delta_k(ws * RAD / S, wi * RAD / S));
@@ -504,7 +514,7 @@ fn check_spdc(ctx: &mut Ctx, spdc: &SPDC, route: &str, hist: &str) {
     let det = 1.0 + 0.02 * (((ws.to_bits() >> 7) % 200) as f64 / 100.0 - 1.0);
     let (ws2, wi2) = (ws * det, wi * (2.0 - det));
     let ks2 = indep_k(cs, th_of(signal), ph_of(signal), pol_s, ws2);
-    let ki2 = indep_k(cs, th_of(idler), ph_of(idler), pol_i, wi2);
+    let ki2 = indep_k(cs, th_of(idler), ph_of(idler), idler.polarization(), wi2);
     let dk2 = raw_vec(spdc.delta_k(ws2 * RAD / S, wi2 * RAD / S));
     let e2 = kp - ks2 - ki2 - zhat * k_lambda;
     ctx.s(
@@ -573,13 +583,29 @@ fn route_session(ctx: &mut Ctx, spdc0: &SPDC, cr: &[CrystalType]) {
   for _ in 0..steps {
     // ---- 1–3 mutations of the object
     for _ in 0..ctx.rng.between(1, 3) {
-      match ctx.rng.below(7) {
+      match ctx.rng.below(10) {
         0 | 1 => {
           let pm = *ctx.rng.pick(&PMS);
           spdc.crystal_setup.pm_type = pm;
           spdc.signal.set_polarization(pm.signal_polarization());
           spdc.pump.set_polarization(pm.pump_polarization());
           hist.push_str(&format!(">pm:{}", pm));
+        }
+        7 => {
+          // the label alone: the beams keep their polarizations
+          let pm = *ctx.rng.pick(&PMS);
+          spdc.crystal_setup.pm_type = pm;
+          hist.push_str(&format!(">pm-alone:{}", pm));
+        }
+        8 => {
+          let pol = if ctx.rng.coin() { PolarizationType::Ordinary } else { PolarizationType::Extraordinary };
+          spdc.signal.set_polarization(pol);
+          hist.push_str(">signal-pol");
+        }
+        9 => {
+          let pol = if ctx.rng.coin() { PolarizationType::Ordinary } else { PolarizationType::Extraordinary };
+          spdc.pump.set_polarization(pol);
+          hist.push_str(">pump-pol");
         }
         2 => {
           let (lo, hi) = window(&crystal);
@@ -708,7 +734,7 @@ fn scan_session(ctx: &mut Ctx, spdc0: &SPDC, cr: &[CrystalType]) {
   spdc.signal = sg;
   spdc.pump = pu;
   spdc.pp = gen_poling(&mut ctx.rng);
-  let params = ["temperature", "crystal-theta", "crystal-phi", "length", "pm-type", "pump-wavelength", "signal-wavelength", "signal-theta", "signal-phi", "poling-period", "poling-sign", "poling-on-off", "counter-propagation", "crystal-kind"];
+  let params = ["temperature", "crystal-theta", "crystal-phi", "length", "pm-type", "pump-wavelength", "signal-wavelength", "signal-theta", "signal-phi", "poling-period", "poling-sign", "poling-on-off", "counter-propagation", "crystal-kind", "pm-type-alone", "signal-polarization", "pump-polarization"];
   let mut hist = format!("start:{}:{}", crystal, pm0);
   let steps = ctx.rng.between(8, 24);
   // a scan usually sweeps ONE parameter repeatedly (as a user's loop would), sometimes hops between parameters
@@ -769,6 +795,15 @@ fn scan_session(ctx: &mut Ctx, spdc0: &SPDC, cr: &[CrystalType]) {
           }
         }
         "counter-propagation" => spdc.crystal_setup.counter_propagation = !spdc.crystal_setup.counter_propagation,
+        "pm-type-alone" => spdc.crystal_setup.pm_type = *ctx.rng.pick(&PMS),
+        "signal-polarization" => {
+          let p = spdc.signal.polarization();
+          spdc.signal.set_polarization(if p == PolarizationType::Ordinary { PolarizationType::Extraordinary } else { PolarizationType::Ordinary });
+        }
+        "pump-polarization" => {
+          let p = spdc.pump.polarization();
+          spdc.pump.set_polarization(if p == PolarizationType::Ordinary { PolarizationType::Extraordinary } else { PolarizationType::Ordinary });
+        }
         _ => {
           crystal = ctx.rng.pick(cr).clone();
           let (lp, ls) = gen_wavelengths(&mut ctx.rng, &crystal);
